@@ -227,7 +227,7 @@ impl Prop for C12 {
     }
     fn rule(&self) -> String {
         format!(
-            "every key history of length <= L (L=3 quick, 5 thorough) over a {}-symbol alphabet of the synthetic layout with one representative of every \
+            "every key history of length <= L (L=4 quick, 5 thorough) over a {}-symbol alphabet of the synthetic layout with one representative of every \
              character class the rules distinguish (incl. multi-code-point values), under all 16 settings of auto-vowel/auto-chandra/traditional/old-reph, \
              every step judged against the executable rule model; each history is followed by a backspace chain down to empty; plus random histories of \
              length 4-7 and 10-30 with 20% backspaces. distinct_nontrivial = distinct (text before, key value, options) triples in which a non-append rule fired and was compared.",
@@ -265,7 +265,7 @@ impl Prop for C12 {
         };
         let alpha = syms(&oracle, &ALPHABET);
         let n = alpha.len();
-        let maxlen = env.tier.pick(3, 5);
+        let maxlen = env.tier.pick(4, 5);
         let root = env.root("c12");
         fresh_root(&root);
         let mut t = Tally::default();
